@@ -432,7 +432,7 @@ theorem declFuncs_app : (fpre : FuncList) â†’ (Î“ : Env) â†’ (rest : FuncList) â
   | .cons f t, Î“, rest => by
     have ih := declFuncs_app t
     simp only [FuncList.app, declFuncs]
-    cases h1 : Î“.add f.ln f.name (.func .nil .dflt .int) with
+    cases h1 : addFunc Î“ f.ln f.name (.func .nil .dflt .int) with
     | error d' => simp
     | ok Î“1 =>
       simp
@@ -459,7 +459,7 @@ theorem declFuncs_length : (fs : FuncList) â†’ (Î“ Î“' : Env) â†’ (ss : List Sig
   | .cons f t, Î“, Î“', ss, h => by
     have ih := declFuncs_length t
     simp only [declFuncs] at h
-    cases h1 : Î“.add f.ln f.name (.func .nil .dflt .int) with
+    cases h1 : addFunc Î“ f.ln f.name (.func .nil .dflt .int) with
     | error d' => simp [h1] at h
     | ok Î“1 =>
       simp only [h1, bind_ok] at h
